@@ -8,6 +8,16 @@ HOOK_COMMITS = subprocess.run(
 
 # id -> (built?, technique, level text, level note, design_ref)
 CHECKS = {
+ "C12": (True,
+   "metamorphic self-comparison on the real tokenizer: every single blank insertion/deletion and case flip outside literal text, exhaustive over short atom sequences",
+   "For every concatenation of up to 3 (quick) / 4 (thorough) atoms of a 64-atom alphabet, and for random longer lines and DATA statements, ALL single-edit perturbations at unprotected positions plus the crunched and letter-spaced spellings are tokenized by the real tokenizer and must give the identical token sequence (or the identical failure); a sample is also entered into real interpreters and compared through LIST. Held on every line/perturbation executed; exhaustive for the stated atom bound.",
+   "Protected positions are known from the generator's construction of the line, so only generated line shapes are covered; insertions use space and tab.",
+   "DESIGN.md §5 C12"),
+ "C13": (True,
+   "contract monitor over tokenizer executions: range well-formedness + re-tokenization oracle, exhaustive over short atom sequences",
+   "Every line of up to 4 atoms of a 64-atom alphabet (plus a sample of 5-atom lines in the thorough tier, random token lines with line-number prefixes and arbitrary UTF-8 text) is tokenized through the hook; each reported range is checked for bounds, char boundaries, order, non-blank ends, REM/DATA extent, and the range text is re-tokenized alone and must give exactly that token; for failing lines the prefix before the error position must tokenize to exactly the tokens reported. Held on every line executed; exhaustive for the stated bound.",
+   "Trusts that the hook calls the same Tokenizer as the interpreter/analyzer (it does: verif_hooks.rs).",
+   "DESIGN.md §5 C13"),
  "C18": (True,
    "online oracle over executions: RNG hooks swept over generator states + PRINT RND scripts vs u128 LCG model",
    "Every generator state reached by the sweep (thorough: all 2^33; quick: every 128th + boundary windows) is stepped in the real Rng through the verif hooks and compared bit-for-bit with an independent u128 model; seeds up to 2^64-1, argument-sign scripts and the three front ends are compared through PRINT RND(x) on real interpreters. Held-on-what-ran, exhaustive over states in the thorough tier.",
